@@ -24,6 +24,10 @@ CLAIMED = {
          "Static decision of the session model handler by handler: unbound fids are refused with EBADF before any effect, Tclunk/Tremove reach DeleteFID on every exit, InsertFID is reachable only after every preceding backend/walk call is known to have succeeded and only success replies follow it, the property's guard table (open state, mode, type, xattr sub-protocol, CanOpen set, Tauth/auth-fid) is contained in the guards dominating each backend call with the prescribed errno, and opened/openFlags are written only on Open's success side and in the create literal. Right level: every (state, request) edge of the model is decided by the guards of one handler, which are dominance facts of its CFG; no sequence needs to be run.",
          "Guards are matched as canonical path facts over resolved expressions (alternatives listed in checker/c04.go); an equivalent guard in an unlisted form is reported rather than assumed. The contents of the fid table over a history are not computed (only the per-step discipline).",
          "DESIGN.md section 4 C04, section 3 C/F/G, Appendix C"),
+ "C08": ("success-side dominance and argument agreement between backend RenameAt/UnlinkAt and the path-tree bookkeeping calls; structural shape rules for renameChildTo/notifyNameChange/notifyDelete/markChildDeleted; fencing guard table (isDeleted) in both directions; sibling-map agreement in path_tree.go",
+         "Static decision that the server's rename/unlink bookkeeping follows the backend exactly (called on the success side only, with the same directory, names and target, on every successful exit), that Trename/Tremove use the current name read under the global lock, that every moved or deleted reference and node is re-parented / re-registered / notified / fenced by code of the required shape (recursion through both child references and child nodes), that the property's fencing table dominates every path-dependent backend call with EINVAL (ENOENT for walks) while I/O and getattr stay unfenced, and that the reference maps are updated together under childMu:W. Right level: each clause is a fact about call order, arguments and guards on every path.",
+         "Which object a name denotes after k operations is runtime state and is not computed; the shape rules are specific to the current structure of renameChildTo and friends (a restructuring is reported as undecided/failed rather than assumed correct).",
+         "DESIGN.md section 4 C08"),
 }
 
 NOT_YET = "check not built yet (work in progress; DESIGN.md section 4 describes the planned static rules)"
